@@ -280,6 +280,12 @@ var constActions = map[string]string{
 	"bytes := dec.UnsafeUntil(TagSemicolon); switch len(bytes) { case 0: *p = false case 1: *p = bytes[0] != '0' default: *p = true }": "ABoolText",
 	// strings
 	"*p = convert.ToUnsafeString(dec.Until(TagSemicolon))": "ARead RUntil",
+	// the same reads without a private copy: the value would alias the read buffer
+	"*p = convert.ToUnsafeString(dec.UnsafeUntil(TagSemicolon))": "ARead RUntilUnsafe",
+	"*p = dec.readUnsafeString(1)":                               "ARead RCharUnsafe",
+	"*p = dec.ReadUnsafeString()":                                "ARead RStringUnsafe",
+	"*p = convert.ToUnsafeString(dec.readUnsafeBytes())":         "ARead RBytesUnsafe",
+	"*p = dec.readUnsafeBytes()":                                 "ARead RBytesUnsafe",
 	"*p = dec.readSafeString(1)":                           "ARead RChar",
 	"*p = dec.ReadString()":                                "ARead RString",
 	"*p = convert.ToUnsafeString(dec.ReadBytes())":         "ARead RBytes",
@@ -353,9 +359,9 @@ var constActions = map[string]string{
 var bodyActions = map[string]string{
 	"count := dec.ReadInt(); slice := reflect2.PtrOf(p); valdec.t.UnsafeGrow(slice, count); dec.AddReference(p); for i := 0; i < count; i++ { valdec.decodeElem(dec, valdec.et, valdec.t.UnsafeGetIndex(slice, i)) }; dec.Skip()": "ACall FSliceList",
 	"length := valdec.at.Len(); count := dec.ReadInt(); array := reflect2.PtrOf(p); dec.AddReference(p); n := length; if n > count { n = count }; et := valdec.et.Type1(); for i := 0; i < n; i++ { valdec.decodeElem(dec, et, valdec.at.UnsafeGetIndex(array, i)) }; switch { case n < length: for i := n; i < length; i++ { valdec.at.UnsafeSetIndex(array, i, valdec.emptyElem) } case n < count: temp := valdec.et.UnsafeNew() for i := n; i < count; i++ { valdec.decodeElem(dec, et, temp) } }; dec.Skip()": "ACall FArrayList",
-	"data := dec.UnsafeNext(dec.ReadInt()); dec.Skip(); valdec.copy(p, data); dec.AddReference(p)":                                                   "ACall FByteArrayBytes",
+	"data := dec.readUnsafeBytes(); valdec.copy(p, data); dec.AddReference(p)": "ACall FByteArrayBytes",
 	"data, _ := dec.readStringAsBytes(1); valdec.copy(p, data)":                                                                                      "ACall FByteArrayChar",
-	"if dec.IsSimple() { data, _ := dec.readStringAsBytes(dec.ReadInt()) dec.Skip() valdec.copy(p, data) } else { valdec.copy(p, convert.ToUnsafeBytes(dec.ReadString())) }": "ACall FByteArrayString",
+	"if dec.IsSimple() { data, safe := dec.readStringAsBytes(dec.ReadInt()) valdec.copy(p, dec.skipAfter(data, safe)) } else { valdec.copy(p, convert.ToUnsafeBytes(dec.ReadString())) }": "ACall FByteArrayString",
 	"count := dec.ReadInt(); l := list.New(); *plist = l; if !dec.IsSimple() { dec.refer.Add(l) }; for i := 0; i < count; i++ { var e interface{} dec.decodeInterface(dec.NextByte(), &e) l.PushBack(e) }; dec.Skip()": "ACall FListList",
 	"var pair []float32; dec.decode(&pair, tag); if dec.Error == nil { if len(pair) == 2 { *p = complex(pair[0], pair[1]) } else { dec.Error = CastError{Source: reflect.TypeOf(pair), Destination: t} } }": "ACall FComplexList",
 	"var pair []float64; dec.decode(&pair, tag); if dec.Error == nil { if len(pair) == 2 { *p = complex(pair[0], pair[1]) } else { dec.Error = CastError{Source: reflect.TypeOf(pair), Destination: t} } }": "ACall FComplexList",
@@ -737,6 +743,35 @@ func (g *dtGen) readerOf(name string) string {
 	if want, ok := primitiveBodies[name]; ok && s == want {
 		return "RdPrimitive"
 	}
+	// windows guarded by skipAfter (copied before the refill that skipping the closing quote may trigger)
+	if m := regexp.MustCompile(`^bytes, safe := dec\.(\w+)\(dec\.ReadInt\(\)\); return dec\.skipAfter\(bytes, safe\)$`).FindStringSubmatch(s); m != nil {
+		return "RdGuarded " + dtStr(m[1])
+	}
+	if m := regexp.MustCompile(`^data, safe := dec\.(\w+)\(dec\.ReadInt\(\)\); data = dec\.skipAfter\(data, safe\); if data == nil \{ return \}; return convert\.ToUnsafeString\(data\)$`).FindStringSubmatch(s); m != nil {
+		return "RdGuarded " + dtStr(m[1])
+	}
+	if name == "skipAfter" && s == "if !safe && data != nil && dec.head == dec.tail && dec.reader != nil { data = append([]byte(nil), data...) }; dec.Skip(); return data" {
+		return "RdSkipAfter"
+	}
+	// ownership of returned bytes / strings
+	if m := regexp.MustCompile(`^data, safe := dec\.(\w+)\(\w+\); if safe \{ return data \}; result := make\(\[\]byte, len\(data\)\); copy\(result, data\); return result$`).FindStringSubmatch(s); m != nil {
+		return "RdOwn true " + dtStr(m[1])
+	}
+	if m := regexp.MustCompile(`^data, _ = dec\.(\w+)\(\w+\); return$`).FindStringSubmatch(s); m != nil {
+		return "RdOwn false " + dtStr(m[1])
+	}
+	if m := regexp.MustCompile(`^data, safe := dec\.(\w+)\(\w+\); if data == nil \{ return \}; if safe \{ return convert\.ToUnsafeString\(data\) \}; return string\(data\)$`).FindStringSubmatch(s); m != nil {
+		return "RdOwn true " + dtStr(m[1])
+	}
+	if m := regexp.MustCompile(`^data, _ := dec\.(\w+)\(\w+\); if data == nil \{ return \}; return convert\.ToUnsafeString\(data\)$`).FindStringSubmatch(s); m != nil {
+		return "RdOwn false " + dtStr(m[1])
+	}
+	if m := regexp.MustCompile(`^(\w+) :?= dec\.(\w+)\(dec\.ReadInt\(\)\); dec\.Skip\(\); return(?: (\w+))?$`).FindStringSubmatch(s); m != nil && (m[3] == "" || m[3] == m[1]) {
+		return "RdVia " + dtStr(m[2]) + " false"
+	}
+	if m := regexp.MustCompile(`^(\w+) :?= dec\.(\w+)\(\); if !dec\.IsSimple\(\) \{ dec\.refer\.Add\((\w+)\) \}; return(?: (\w+))?$`).FindStringSubmatch(s); m != nil && m[1] == m[3] && (m[4] == "" || m[4] == m[1]) {
+		return "RdVia " + dtStr(m[2]) + " true"
+	}
 	reF := regexp.MustCompile(`^f, err := strconv\.ParseFloat\(convert\.ToUnsafeString\(dec\.UnsafeUntil\(TagSemicolon\)\), (32|64)\); if dec\.Error == nil && err != nil \{ dec\.Error = err \}; return (float32\(f\)|f)$`)
 	if m := reF.FindStringSubmatch(s); m != nil {
 		if (m[1] == "32" && m[2] == "float32(f)" && name == "ReadFloat32") || (m[1] == "64" && m[2] == "f" && name == "ReadFloat64") {
@@ -973,7 +1008,9 @@ func genDecTables(repo string) (string, map[string]interface{}, error) {
 	}
 	b.WriteString("].\n\n")
 	b.WriteString("Definition gen_dec_readers : list (bstr * reader) :=\n  [")
-	for i, n := range []string{"ReadInt", "ReadInt8", "ReadInt16", "ReadInt32", "ReadInt64", "ReadUint", "ReadUint8", "ReadUint16", "ReadUint32", "ReadUint64", "readUint64", "ReadFloat32", "ReadFloat64"} {
+	for i, n := range []string{"ReadInt", "ReadInt8", "ReadInt16", "ReadInt32", "ReadInt64", "ReadUint", "ReadUint8", "ReadUint16", "ReadUint32", "ReadUint64", "readUint64", "ReadFloat32", "ReadFloat64",
+		"Until", "UnsafeUntil", "Next", "UnsafeNext", "readStringAsSafeBytes", "readSafeString", "readUnsafeString",
+		"readBytes", "readUnsafeBytes", "ReadBytes", "ReadSafeString", "ReadUnsafeString", "ReadString", "ReadStringAsBytes", "skipAfter"} {
 		if i > 0 {
 			b.WriteString(";\n   ")
 		}
